@@ -601,6 +601,22 @@ class Interp:
                 r = self.unknown_call_hook(self, f, args, kwargs, node, fr)
                 if r is not None:
                     return r
+            if f.meta.get("attr") in ("debug", "info", "warning", "error", "critical", "exception", "log") and \
+                    any(isinstance(a, Obj) and (a.cls.find_method("__str__") or a.cls.find_method("__repr__")) for a in args[1:]):
+                # logging formats its arguments lazily: when (and only when) the record is emitted, the argument's own
+                # __str__ / __repr__ runs - with whatever it does to the object
+                if self.run.assume(("log-record-formatted", self.up(node) if node is not None else f.tag),
+                                   f"the log record of `{(self.up(node) if node is not None else f.tag)[:60]}` is formatted"):
+                    fmt = args[0].text() if isinstance(args[0], Str) and args[0].is_concrete() else ""
+                    import re as _re_
+                    specs = _re_.findall(r"%[-#0 +]*\d*(?:\.\d+)?([a-zA-Z%])", fmt)
+                    specs = [x for x in specs if x != "%"]
+                    for i, a in enumerate(args[1:]):
+                        if isinstance(a, Obj):
+                            want = "__repr__" if i < len(specs) and specs[i] == "r" else "__str__"
+                            m_ = a.cls.find_method(want) or a.cls.find_method("__repr__") or a.cls.find_method("__str__")
+                            if m_ is not None:
+                                self.call_func(m_, [], {}, a, node, fr)
             tag = f"{f.tag}(...)"
             self.run.event("call_unknown", target=f.tag, args=args, kwargs=kwargs, node=node, fvalue=f,
                            func=(fr.func.qualname if fr and fr.func else ""), module=(fr.module if fr else ""))
